@@ -271,4 +271,80 @@ Proof.
     (apply evb_bind; [eapply Forall_impl; [|apply load_search]; intros e He; destruct e; try contradiction; exact I|intros; apply iter_node_events]).
 Qed.
 
+(** * In the model, Insert cannot report an error once it has committed: the grow loop works on
+    nodes in memory and a total layer function (the implementation's layer callback can fail there:
+    known finding D13) *)
+Definition soft {A} (m : M A) : Prop := match snd m with Ok _ | ErrFuel => True | _ => False end.
+Lemma snd_bind {A B} (m : M A) (f : A -> M B) :
+  snd (bind m f) = match snd m with Ok a => snd (f a) | Err => Err | ErrFuel => ErrFuel | ErrPanic => ErrPanic end.
+Proof. destruct m as [t [a| | |]]; cbn [bind fst snd]; try reflexivity. destruct (f a). reflexivity. Qed.
+Lemma soft_bind_dep {A B} (m : M A) (f : A -> M B) (Q : A -> Prop) :
+  soft m -> (forall t a, m = (t, Ok a) -> Q a) -> (forall a, Q a -> soft (f a)) -> soft (bind m f).
+Proof.
+  unfold soft. rewrite snd_bind. destruct m as [t [a| | |]]; cbn [snd]; intros H HQ Hf; try contradiction; try exact I.
+  apply Hf. eapply HQ. reflexivity.
+Qed.
+Lemma soft_ret {A} (a : A) : soft (ret a). Proof. exact I. Qed.
+Lemma soft_ticks e n : soft (ticks e n).
+Proof. induction n as [|n IH]; [exact I|]. cbn [ticks]. apply (soft_bind_dep _ _ (fun _ => True)); [exact I|trivial|intros _ _; exact IH]. Qed.
+Lemma soft_can_grow h (es : list entry) : soft (can_grow _ _ layer h es).
+Proof.
+  induction es as [|e r IH]; [exact I|]. cbn [can_grow].
+  apply (soft_bind_dep _ _ (fun _ => True)); [exact I|trivial|]. intros _ _. destruct (Nat.ltb h (layer (ekey _ _ e))); [exact I|exact IH].
+Qed.
+
+Definition growable (root0 : node) (m : mast K V) : Prop :=
+  match m_root _ _ m with LPtr _ => True | LNil => n_es _ _ root0 = [] | _ => False end.
+
+Lemma grow_loop_soft : forall fuel root0 (m : mast K V), growable root0 m -> soft (grow_loop _ _ layer fuel root0 m).
+Proof.
+  induction fuel as [|f IH]; intros root0 m G; cbn [grow_loop]; [exact I|].
+  destruct (N.leb (m_grow_after _ _ m) (m_size _ _ m)); [|exact I].
+  unfold growable in G. destruct (m_root _ _ m) as [|c|h c|h] eqn:Er; try contradiction.
+  - rewrite G. cbn [can_grow]. exact I.
+  - apply (soft_bind_dep _ _ (fun _ => True)); [apply soft_can_grow|trivial|]. intros cg _. destruct cg; [|exact I].
+    apply (soft_bind_dep _ _ (fun m' => growable root0 m')).
+    + unfold grow. rewrite Er. cbn [load]. apply (soft_bind_dep _ _ (fun _ => True)); [exact I|trivial|]. intros n _.
+      apply (soft_bind_dep _ _ (fun _ => True)); [apply soft_ticks|trivial|]. intros _ _. exact I.
+    + intros t m' E. unfold grow in E. rewrite Er in E. cbn [load] in E.
+      apply bind_inv in E. destruct E as (t1 & n & t2 & _ & E & _).
+      apply bind_inv in E. destruct E as (t3 & [] & t4 & _ & E & _). unfold ret in E. inversion E. exact I.
+    + intros m' G'. apply IH. exact G'.
+Qed.
+
+Lemma root_of_node_growable (m : mast K V) n : growable n (root_of_node _ _ m n).
+Proof.
+  unfold growable, root_of_node. destruct (is_empty _ _ n) eqn:E; cbn; [|exact I].
+  destruct n as [d s l0 es]. cbn in E. destruct l0; try discriminate. destruct es; [reflexivity|discriminate].
+Qed.
+
+Theorem insert_error_before_commit (m : mast K V) k v :
+  snd (insert _ _ cmp veq layer m k v) = Err \/ snd (insert _ _ cmp veq layer m k v) = ErrPanic ->
+  Forall pre_ev (fst (insert _ _ cmp veq layer m k v)).
+Proof.
+  unfold insert.
+  set (first := match m_root _ _ m with LNil => ret (fresh_node K V) | r => load _ _ r end).
+  set (body := fun n => ins _ _ cmp veq (S (m_height _ _ m)) (m_height _ _ m) (Nat.min (layer k) (m_height _ _ m)) k v n).
+  change (snd (tick ELayer >> (let* n := first in let* r := body n in ins_post r m)) = Err \/
+          snd (tick ELayer >> (let* n := first in let* r := body n in ins_post r m)) = ErrPanic ->
+          Forall pre_ev (fst (tick ELayer >> (let* n := first in let* r := body n in ins_post r m)))).
+  rewrite fst_bind, snd_bind. cbn [tick fst snd]. rewrite fst_bind, snd_bind.
+  assert (Hfirst : Forall pre_ev (fst first)).
+  { unfold first. destruct (m_root _ _ m); [constructor|..]; (eapply Forall_impl; [|apply load_search]; intros e He; destruct e; try contradiction; exact I). }
+  destruct (snd first) as [n| | |] eqn:Esf.
+  2-4: (intros _; constructor; [exact I|rewrite app_nil_r; exact Hfirst]).
+  rewrite fst_bind, snd_bind.
+  assert (Hins : Forall pre_ev (fst (body n))).
+  { eapply Forall_impl; [|apply ins_events]. intros e He; destruct e; try contradiction; exact I. }
+  destruct (snd (body n)) as [r| | |] eqn:Esb.
+  2-4: (intros _; constructor; [exact I|rewrite app_nil_r; apply Forall_app; split; assumption]).
+  destruct r as [|n'|n']; cbn [ins_post].
+  - intros _. constructor; [exact I|]. apply Forall_app; split; [assumption|]. apply Forall_app; split; [assumption|constructor].
+  - rewrite snd_bind. cbn [tick snd ret]. intros [H|H]; discriminate H.
+  - rewrite snd_bind. cbn [tick snd]. rewrite snd_bind.
+    pose proof (grow_loop_soft max_layer_fuel n' (root_of_node _ _ m n') (root_of_node_growable m n')) as S.
+    unfold soft in S. destruct (snd (grow_loop K V layer max_layer_fuel n' (root_of_node K V m n'))); try contradiction; cbn [ret snd];
+      intros [H|H]; discriminate H.
+Qed.
+
 End EVENTS.
